@@ -165,7 +165,11 @@ def run_property(prop, tier, explain=None):
             seen_known.add(r.key)
             lines.append('KNOWN-FINDING: property=%s %s' % (prop, known_keys[r.key]['what']))
     replay_paths = []
+    seen_new = set()
     for r in new_viol:
+        if r.key in seen_new:
+            continue
+        seen_new.add(r.key)
         h = hashlib.sha1(r.key.encode()).hexdigest()[:10]
         rp = os.path.join('evidence', 'violations', '%s-%s-%s.json' % (prop, r.rule.replace('.', '_'), h))
         rep = r.to_json()
